@@ -3,11 +3,17 @@ import TantivyModel.Proofs.FaultsInv
 lock file when its flush / delete never fail. -/
 namespace TantivyModel.Faults
 
+@[simp] theorem content_nil : content [] = [] := rfl
+@[simp] theorem content_app (a b : List Seg) : content (a ++ b) = content a ++ content b := by
+  simp [content]
+@[simp] theorem content_single (n : Nat) (q : List Nat) : content [⟨n, q⟩] = q := by
+  simp [content]
+
 /-- facts about a writer that has not reported any error since it was created / rolled back -/
 def CleanW (s : St) (w : Writer) : Prop :=
   w.guard = true ∧ w.killed = false ∧ w.workers = true ∧ w.committed = s.metaSegs ∧
-  w.uncommitted = [] ∧ w.active = s.metaSegs ∧
-  (w.workerErr = false → w.alive = true ∧ w.queue = w.acked) ∧
+  True ∧ w.active = s.metaSegs ∧
+  (w.workerErr = false → w.alive = true ∧ content w.uncommitted ++ w.queue = w.acked) ∧
   (w.workerErr = true → w.alive = false)
 
 def K (s : St) : Prop :=
@@ -40,7 +46,7 @@ theorem K_updaterCommit (f : Plan) (s : St) (w : Writer)
           obtain ⟨h1, h2, h3, h4, h5, h6, h7, h8⟩ := h hc'
           simp [CleanW, published, commitRegs, gcRun_meta, h1, h2, h3, h6, h7, h8]
 
-theorem K_call (sy : Bool) (cap : Nat) (f : Plan) (s : St) (c : Call) (hk : K s) : K (call sy cap f s c).1 := by
+theorem K_call (sy : Bool) (fx : Fixes) (cap : Nat) (f : Plan) (s : St) (c : Call) (hk : K s) : K (call sy fx cap f s c).1 := by
   cases c with
   | newWriter =>
     simp only [call]
@@ -81,15 +87,27 @@ theorem K_call (sy : Bool) (cap : Nat) (f : Plan) (s : St) (c : Call) (hk : K s)
             intro hc
             obtain ⟨h1, h2, h3, h4, h5, h6, _, _⟩ := hk (by simpa [bombed] using hc)
             simp [CleanW, bombed, newFiles, h1, h2, h3, h4, h5, h6]
-          · simp only [K]
-            intro hc
-            obtain ⟨h1, h2, h3, h4, h5, h6, h7, h8⟩ := hk hc
-            have hal' : w.alive = true := by simpa using hal
-            have hwe : w.workerErr = false := by
-              cases hh : w.workerErr
-              · rfl
-              · have := h8 hh; simp [this] at hal'
-            simp [CleanW, h1, h2, h3, h4, h5, h6, hwe, (h7 hwe).2, hal']
+          · have key : w.clean = true → w.alive = true ∧ w.workerErr = false ∧
+                content w.uncommitted ++ w.queue = w.acked := by
+              intro hc
+              obtain ⟨_, _, _, _, _, _, h7, h8⟩ := hk hc
+              have hal' : w.alive = true := by simpa using hal
+              have hwe : w.workerErr = false := by
+                cases hh : w.workerErr
+                · rfl
+                · have := h8 hh; simp [this] at hal'
+              exact ⟨hal', hwe, (h7 hwe).2⟩
+            split
+            · simp only [K]
+              intro hc
+              obtain ⟨h1, h2, h3, h4, h5, h6, _, _⟩ := hk hc
+              obtain ⟨hal', hwe, hq⟩ := key hc
+              simp [CleanW, newFiles, h1, h2, h3, h4, h6, hwe, hal', ← hq, List.append_assoc]
+            · simp only [K]
+              intro hc
+              obtain ⟨h1, h2, h3, h4, h5, h6, _, _⟩ := hk hc
+              obtain ⟨hal', hwe, hq⟩ := key hc
+              simp [CleanW, h1, h2, h3, h4, h6, hwe, hal', ← hq, List.append_assoc]
   | commit =>
     simp only [call]
     cases hs : s.writer with
@@ -141,7 +159,7 @@ theorem K_call (sy : Bool) (cap : Nat) (f : Plan) (s : St) (c : Call) (hk : K s)
         rename_i hg
         simp [this.1] at hg
       · split
-        · simp [K, markErr, releaseLock]
+        · split <;> simp [K, markErr, releaseLock]
         · simp only [K]; intro _
           have := cleanW_fresh s s.lockFile
           simpa using this
@@ -217,9 +235,9 @@ theorem K_call (sy : Bool) (cap : Nat) (f : Plan) (s : St) (c : Call) (hk : K s)
         exact hk hc
     · exact hk
 
-theorem K_run (sy : Bool) (cap : Nat) (F : Nat → Plan) (i : Nat) (s : St) (cs : List Call) (h : K s) :
-    K (run sy cap F i s cs).1 :=
-  run_inv K sy cap (fun f s c => K_call sy cap f s c) F i s cs h
+theorem K_run (sy : Bool) (fx : Fixes) (cap : Nat) (F : Nat → Plan) (i : Nat) (s : St) (cs : List Call) (h : K s) :
+    K (run sy fx cap F i s cs).1 :=
+  run_inv K sy fx cap (fun f s c => K_call sy fx cap f s c) F i s cs h
 
 /-! ### a successful commit -/
 
@@ -243,11 +261,11 @@ theorem content_append (a b : List Seg) : content (a ++ b) = content a ++ conten
   simp [content]
 
 /-- the commit of a clean writer, when it returns `Ok` -/
-theorem clean_commit_ok {sy : Bool} {cap : Nat} {f : Plan} {s : St} {w : Writer} (hw : s.writer = some w)
-    (hcw : CleanW s w) (hok : (call sy cap f s .commit).2 = .ok) :
+theorem clean_commit_ok {sy : Bool} {fx : Fixes} {cap : Nat} {f : Plan} {s : St} {w : Writer} (hw : s.writer = some w)
+    (hcw : CleanW s w) (hok : (call sy fx cap f s .commit).2 = .ok) :
     f .purge = false ∧ f .saveMeta = false ∧ (sy && f .saveSync2) = false ∧
-    (w.acked ≠ [] → f .worker = false) ∧
-    content (call sy cap f s .commit).1.metaSegs = content s.metaSegs ++ w.acked := by
+    (w.queue ≠ [] → f .worker = false) ∧
+    content (call sy fx cap f s .commit).1.metaSegs = content s.metaSegs ++ w.acked := by
   obtain ⟨h1, h2, h3, h4, h5, h6, h7, h8⟩ := hcw
   cases hwe : w.workerErr with
   | true => simp [call, hw, h3, hwe] at hok
@@ -260,17 +278,18 @@ theorem clean_commit_ok {sy : Bool} {cap : Nat} {f : Plan} {s : St} {w : Writer}
       obtain ⟨_, hp, hsv, hs2, hm⟩ := updaterCommit_ok hok
       refine ⟨hp, hsv, hs2, ?_, ?_⟩
       · intro hne
-        rw [← h10] at hne
         cases hq : w.queue with
         | nil => exact absurd hq hne
-        | cons a as => simpa [hq] using hcond
+        | cons a as =>
+          have hin : inFlight fx w = true := by simp [inFlight, hq]
+          simpa [hin] using hcond
       · rw [if_neg hcond, hm]
         unfold flushW
         split
         · rename_i hq
           have : w.queue = [] := by simpa using hq
-          simp [h4, h5, ← h10, this]
-        · simp [h4, h5, ← h10, content]
+          simp [h4, ← h10, this]
+        · simp [h4, ← h10, List.append_assoc]
 
 theorem updaterCommit_err {sy : Bool} {f : Plan} {s : St} {w : Writer} (h : (updaterCommit sy f s w).2 = .err) :
     (updaterCommit sy f s w).1.metaSegs = s.metaSegs ∨
@@ -294,13 +313,13 @@ theorem updaterCommit_err {sy : Bool} {f : Plan} {s : St} {w : Writer} (h : (upd
 
 /-- the commit of a clean writer, when it returns `Err`: `meta.json` is what it was, or exactly the
 attempted commit (only when the post-rename sync failed) -/
-theorem clean_commit_err {sy : Bool} {cap : Nat} {f : Plan} {s : St} {w : Writer} (hw : s.writer = some w)
-    (hcw : CleanW s w) (herr : (call sy cap f s .commit).2 = .err)
-    (hfiles : segsHaveFiles (call sy cap f s .commit).1.metaSegs (call sy cap f s .commit).1.files) :
-    content (call sy cap f s .commit).1.metaSegs = content s.metaSegs ∨
-    (content (call sy cap f s .commit).1.metaSegs = content s.metaSegs ++ w.acked ∧ sy = true ∧
+theorem clean_commit_err {sy : Bool} {fx : Fixes} {cap : Nat} {f : Plan} {s : St} {w : Writer} (hw : s.writer = some w)
+    (hcw : CleanW s w) (herr : (call sy fx cap f s .commit).2 = .err)
+    (hfiles : segsHaveFiles (call sy fx cap f s .commit).1.metaSegs (call sy fx cap f s .commit).1.files) :
+    content (call sy fx cap f s .commit).1.metaSegs = content s.metaSegs ∨
+    (content (call sy fx cap f s .commit).1.metaSegs = content s.metaSegs ++ w.acked ∧ sy = true ∧
       f .saveSync2 = true ∧ f .purge = false ∧ f .saveMeta = false ∧
-      segsHaveFiles (call sy cap f s .commit).1.metaSegs (call sy cap f s .commit).1.files) := by
+      segsHaveFiles (call sy fx cap f s .commit).1.metaSegs (call sy fx cap f s .commit).1.files) := by
   obtain ⟨h1, h2, h3, h4, h5, h6, h7, h8⟩ := hcw
   cases hwe : w.workerErr with
   | true => left; simp [call, hw, h3, hwe]
@@ -321,12 +340,12 @@ theorem clean_commit_err {sy : Bool} {cap : Nat} {f : Plan} {s : St} {w : Writer
         split
         · rename_i hq
           have : w.queue = [] := by simpa using hq
-          simp [h4, h5, ← h10, this]
-        · simp [h4, h5, ← h10, content]
+          simp [h4, ← h10, this]
+        · simp [h4, ← h10, List.append_assoc]
 
-theorem rollback_noFault (sy : Bool) (cap : Nat) (s1 : St) (w1 : Writer) (h : s1.writer = some w1)
+theorem rollback_noFault (sy : Bool) (fx : Fixes) (cap : Nat) (s1 : St) (w1 : Writer) (h : s1.writer = some w1)
     (hg : w1.guard = true) :
-    call sy cap noFault s1 .rollback = ({ s1 with writer := some (freshWriter s1) }, .ok) := by
+    call sy fx cap noFault s1 .rollback = ({ s1 with writer := some (freshWriter s1) }, .ok) := by
   simp [call, h, hg, noFault]
 
 theorem flushW_killed (s : St) (w : Writer) : (flushW s w).killed = w.killed := by
@@ -335,18 +354,18 @@ theorem flushW_guard (s : St) (w : Writer) : (flushW s w).guard = w.guard := by
   unfold flushW; split <;> rfl
 
 /-- only the post-rename sync fails in the commit of a clean writer -/
-theorem commit_sync2_clean {cap : Nat} {f : Plan} {s : St} {w : Writer} (hw : s.writer = some w)
+theorem commit_sync2_clean {fx : Fixes} {cap : Nat} {f : Plan} {s : St} {w : Writer} (hw : s.writer = some w)
     (hcw : CleanW s w) (hwe : w.workerErr = false)
     (hf : f .saveSync2 = true ∧ f .worker = false ∧ f .purge = false ∧ f .saveMeta = false) :
-    (call true cap f s .commit).2 = .err ∧
-    content (call true cap f s .commit).1.metaSegs = content s.metaSegs ++ w.acked ∧
-    ∃ w1, (call true cap f s .commit).1.writer = some w1 ∧ w1.guard = true := by
+    (call true fx cap f s .commit).2 = .err ∧
+    content (call true fx cap f s .commit).1.metaSegs = content s.metaSegs ++ w.acked ∧
+    ∃ w1, (call true fx cap f s .commit).1.writer = some w1 ∧ w1.guard = true := by
   obtain ⟨h1, h2, h3, h4, h5, h6, h7, h8⟩ := hcw
   obtain ⟨hf1, hf2, hf3, hf4⟩ := hf
   obtain ⟨h9, h10⟩ := h7 hwe
   have hk : (flushW s { w with alive := true }).killed = false := by rw [flushW_killed]; exact h2
   have hg : (flushW s { w with alive := true }).guard = true := by rw [flushW_guard]; exact h1
-  have hcall : call true cap f s .commit
+  have hcall : call true fx cap f s .commit
       = updaterCommit true f (flushS s w) (flushW s { w with alive := true }) := by
     simp [call, hw, h3, hwe, hf2]
   have hu : updaterCommit true f (flushS s w) (flushW s { w with alive := true })
@@ -360,16 +379,16 @@ theorem commit_sync2_clean {cap : Nat} {f : Plan} {s : St} {w : Writer} (hw : s.
   split
   · rename_i hq
     have : w.queue = [] := by simpa using hq
-    simp [commitRegs, h4, h5, ← h10, this]
-  · simp [commitRegs, h4, h5, ← h10, content]
+    simp [commitRegs, h4, ← h10, this]
+  · simp [commitRegs, h4, ← h10, List.append_assoc]
 
 /-! ### the lock file -/
 
 /-- plans in which releasing / flushing the lock file never fails -/
 def LockSafe (f : Plan) : Prop := f .lockFlush = false ∧ f .lockDelete = false
 
-theorem stale_call (sy : Bool) (cap : Nat) (f : Plan) (hf : LockSafe f) (s : St) (c : Call)
-    (h : stale s = false) : stale (call sy cap f s c).1 = false := by
+theorem stale_call (sy : Bool) (fx : Fixes) (cap : Nat) (f : Plan) (hf : LockSafe f) (s : St) (c : Call)
+    (h : stale s = false) : stale (call sy fx cap f s c).1 = false := by
   obtain ⟨hf1, hf2⟩ := hf
   cases c with
   | newWriter =>
@@ -401,7 +420,9 @@ theorem stale_call (sy : Bool) (cap : Nat) (f : Plan) (hf : LockSafe f) (s : St)
           · simpa [stale] using h
         · split
           · simpa [stale, bombed, newFiles] using h
-          · simpa [stale] using h
+          · split
+            · simpa [stale, newFiles] using h
+            · simpa [stale] using h
   | commit =>
     simp only [call]
     cases hs : s.writer with
@@ -445,7 +466,10 @@ theorem stale_call (sy : Bool) (cap : Nat) (f : Plan) (hf : LockSafe f) (s : St)
         simpa [stale, hg] using h
       · rename_i hg
         split
-        · simp [stale, releaseLock, hf2]
+        · split
+          · simp only [Bool.not_eq_eq_eq_not, Bool.not_true, Bool.not_eq_false] at hg
+            simpa [stale, markErr, hg] using h
+          · simp [stale, releaseLock, hf2]
         · simp only [Bool.not_eq_eq_eq_not, Bool.not_true, Bool.not_eq_false] at hg
           simpa [stale, freshWriter, hg] using h
   | dropWriter =>
@@ -518,8 +542,8 @@ theorem stale_call (sy : Bool) (cap : Nat) (f : Plan) (hf : LockSafe f) (s : St)
     · exact h
 
 /-- dropping the writer when no lock file is orphaned and the delete works: the lock is free -/
-theorem drop_noFault (sy : Bool) (cap : Nat) (s : St) (h : stale s = false) :
-    call sy cap noFault s .dropWriter = ({ s with writer := none, lockFile := false }, .ok) := by
+theorem drop_noFault (sy : Bool) (fx : Fixes) (cap : Nat) (s : St) (h : stale s = false) :
+    call sy fx cap noFault s .dropWriter = ({ s with writer := none, lockFile := false }, .ok) := by
   obtain ⟨m, fl, mg, lf, wr, se, nx⟩ := s
   cases wr with
   | none =>
